@@ -123,8 +123,10 @@ Print Assumptions c17_sine_range.
 (* simplex noise as the code evaluates it: IEEE-754 binary64, every + - * rounded to nearest even
    (Flocq Bplus/Bminus/Bmult), `floor` = Bnearbyint toward -inf, `as i64` saturating truncation,
    `as f64` of the corner index exact; PERM lookup, `& 15`, `& 7`, `& 8` on integers.  For EVERY finite
-   argument of magnitude at most 2^52 (positive or negative) the result is finite and in [-1, 1] ... *)
-Theorem c17_simplex_ieee : forall x : f64, is_finite x = true -> Rabs (B2R x) <= 4503599627370496 ->
+   argument in [-2^63, 2^63) -- the range on which `floor(x) as i64` does not saturate (and `i0 + 1` does
+   not overflow) -- the result is finite and in [-1, 1] ... *)
+Theorem c17_simplex_ieee : forall x : f64, is_finite x = true ->
+  - 9223372036854775808 <= B2R x < 9223372036854775808 ->
   is_finite (simplex_noise_1d F x) = true /\ -1 <= B2R (simplex_noise_1d F x) <= 1.
 Proof. exact simplex_ieee. Qed.
 Print Assumptions c17_simplex_ieee.
